@@ -42,12 +42,12 @@ Print Assumptions C16_supported_step.
 
 (* per shape, for every expected revision from zero to the next revision *)
 Theorem C16_create : forall sb se k v u lease,
-  R sb se -> bounded sb -> k <> [] -> v <> tombstone -> v <> [] -> union_mod u = 0 ->
+  R sb se -> bounded sb -> k <> [] -> v <> tombstone -> union_mod u = 0 ->
   sim_ok (q_create k v u lease) sb se.
 Proof. exact sim_create. Qed.
 Print Assumptions C16_create.
 Theorem C16_update : forall sb se k v u lease lim,
-  R sb se -> bounded sb -> k <> [] -> v <> tombstone -> v <> [] ->
+  R sb se -> bounded sb -> k <> [] -> v <> tombstone ->
   0 <= union_mod u <= Z.of_N (b_rev sb) + 1 -> sim_ok (q_update k v u lease lim) sb se.
 Proof. exact sim_update_scope. Qed.
 Print Assumptions C16_update.
@@ -60,7 +60,7 @@ Theorem C16_delete_unguarded : forall sb se k lim y,
 Proof. exact sim_deleteu_live. Qed.
 Print Assumptions C16_delete_unguarded.
 
-(* reads at the latest revision: kvs in order with keys, values, mod revisions; Count; More *)
+(* reads at the latest revision: kvs in order with keys, values (also empty ones), mod revisions; Count; More *)
 Theorem C16_get : forall sb se k lim, R sb se -> bounded sb -> k <> [] ->
   proj_range (shim_range sb (mkRange k [] lim 0 false false)) = proj_range (etcd_range se (mkRange k [] lim 0 false false)).
 Proof. exact sim_get. Qed.
@@ -155,12 +155,15 @@ Theorem C16_F6_reserved_value :
   proj_range (shim_range (fst (shim_txn (b_init 10) t)) r) = Some ([], 0, false)
   /\ proj_range (etcd_range (fst (etcd_txn (e_init 10) 11 t)) r) = Some ([(kA, tombstone, 11)], 1, false).
 Proof. exact refute_reserved_value. Qed.
-Theorem C16_F8_empty_value :
+(* regression on the witness of the former finding C16-F8: a point read of a key whose value is empty returns the
+   kv, as etcd does (the general statement is C16_get: it has no hypothesis on the value; values may be empty
+   throughout C16_supported / C16_unsupported) *)
+Example C16_empty_value_read :
   let t := q_create kA [] (UMod 0) 0 in
   let r := mkRange kA [] 0 0 false false in
-  proj_range (shim_range (fst (shim_txn (b_init 10) t)) r) = Some ([], 0, false)
+  proj_range (shim_range (fst (shim_txn (b_init 10) t)) r) = Some ([(kA, [], 11)], 1, false)
   /\ proj_range (etcd_range (fst (etcd_txn (e_init 10) 11 t)) r) = Some ([(kA, [], 11)], 1, false).
-Proof. exact refute_empty_value. Qed.
+Proof. exact empty_value_read. Qed.
 
 (* ---- non-vacuity *)
 Example C16_scope_inhabited : in_scope_run (b_init 10) (e_init 10) sample_history.
